@@ -3,23 +3,32 @@
 Everything is computed from the files under vlib.core.REPO ($VERIF_REPO, default /repo), re-read and
 ast.parse'd on every run.  cnfgen is never imported, no code of it is copied.
 
-Per function (bottom-up over the repository call graph, global fixpoint) the abstract interpreter computes
+Per function (bottom-up over the repository call graph, global worklist fixpoint) the abstract interpreter computes
 
-  mut        {(param, depth, attr)}        what it may MUTATE: depth 0 = the argument object itself,
-                                           1 = the object one step inside (attr = first access step),
-                                           2 = anything deeper
-  capture / ret                            which arguments the result / another argument may alias (needed to
-                                           propagate frames through calls:  newF.header = F.header ; add_description(newF))
-  raises     {(Exc, origin function)}      exceptions that may leave the function (explicit raise, assert,
-                                           callee summaries, LIBRARY table) minus enclosing handlers
-  uses_rng / seeds_rng / unseeded          RNG typestate; `unseeded` = RNG uses not dominated by random.seed
-  nondet     {(source, origin function)}   nondeterministic sources that may flow into results
+  mut        {(param, access path)}        what it may MUTATE; the path is k-limited (k=3): () = the argument object
+                                           itself, ('header',) = the object at p.header, ('_clauses','[]') = an element
+                                           of p._clauses, trailing '…' = anything below
+  capture / ret                            which arguments the result / another argument may alias, and where
+                                           (needed to carry frames through calls:  newF.header = F.header ; add_description(newF))
+  raises     {(Exc, origin function, tag)} exceptions that may leave the function (explicit raise, assert, callee
+                                           summaries, LIBRARY table, next() on generators via a least-yields path
+                                           analysis) minus enclosing handlers (builtin + library + repository hierarchy)
+  uses_rng / seeds_rng / unseeded / guards RNG typestate; `unseeded` = RNG uses not dominated by random.seed
+  nondet     {(source, origin function)}   nondeterministic sources that may flow into results (incl. module globals
+                                           computed at import time from such a source)
   tmp_leaks / unbound                      NamedTemporaryFile(delete=False) typestate, definite assignment
-  calls_parse_args, registers              argparse: custom actions / validators registered, parse_args reached
+  calls_parse_args, registers, validators  argparse: custom Action classes / type= validators registered; parse_args is
+                                           re-analysed per entry point with exactly the actions that entry registers
 
-Abstract values are sets of origins (root, depth, attr), root = parameter | allocation site | module global,
-with a `contains` relation between roots (shallow copies, stores).  The analysis is flow-sensitive
-(strong updates, joins at branches, loop fixpoints), value-insensitive, and over-approximates.
+Abstract values are sets of origins (root, path), root = parameter | allocation site | module global, plus a
+`contains` relation (object o2 sits at root.path) that models shallow copies and stores, plus type tags
+(instance / class / function values, set, dict literal, generator).  Calls are resolved through the import
+table, `self`/typed receivers through the C3 MRO (+ overriding subclasses), class-valued parameters through
+contracts.effects_contracts.INTERFACE_PARAMS, untyped receivers by method name over all repository classes,
+dict-of-functions tables through their literals; nested functions are inlined at their call sites, function
+values passed as arguments are charged where they are passed.  Flow-sensitive (strong updates, joins, loop
+fixpoints, try/except/finally), value-insensitive except: isinstance narrowing, `k in d` / `for k in d` facts,
+`a < b` facts from assert / if-raise guards, the constant propagation of the generator path analysis.
 """
 import ast
 import builtins
@@ -100,9 +109,9 @@ def _own_nodes(fnode):
     while stack:
         n = stack.pop()
         yield n
+        if isinstance(n, (ast.FunctionDef, ast.AsyncFunctionDef, ast.ClassDef, ast.Lambda)):
+            continue
         for c in ast.iter_child_nodes(n):
-            if isinstance(c, (ast.FunctionDef, ast.AsyncFunctionDef, ast.ClassDef, ast.Lambda)):
-                continue
             stack.append(c)
 
 
@@ -542,7 +551,7 @@ def _match(a, b):
 
 
 class State:
-    __slots__ = ('frames', 'C', 'seeded', 'assigned', 'tmp', 'nextcnt')
+    __slots__ = ('frames', 'C', 'seeded', 'assigned', 'tmp', 'nextcnt', 'cmp')
 
     def __init__(self):
         self.frames = [{}]
@@ -551,6 +560,7 @@ class State:
         self.assigned = [set()]
         self.tmp = {}
         self.nextcnt = {}
+        self.cmp = frozenset()      # facts (a, '<'|'<=', b) between local names
 
     def copy(self):
         s = State()
@@ -560,6 +570,7 @@ class State:
         s.assigned = [set(a) for a in self.assigned]
         s.tmp = dict(self.tmp)
         s.nextcnt = dict(self.nextcnt)
+        s.cmp = self.cmp
         return s
 
     def join(self, o):
@@ -571,6 +582,7 @@ class State:
         for k, v in o.C.items():
             self.C.setdefault(k, set()).update(v)
         self.seeded = self.seeded and o.seeded
+        self.cmp = self.cmp & o.cmp
         self.assigned = [a & b for a, b in zip(self.assigned, o.assigned)]
         for k in set(self.tmp) | set(o.tmp):
             a, b = self.tmp.get(k), o.tmp.get(k)
@@ -626,6 +638,7 @@ class Summary:
         self.validators = set()  # fids
         self.asserts = {}        # origin site -> witness (uncaught AssertionError)
         self.callees = set()
+        self.mutable_default = set()
 
     def key(self):
         return (frozenset(self.mut), frozenset((k, frozenset(v)) for k, v in self.capture.items()),
@@ -942,7 +955,7 @@ class Interp:
                 self.setvar(fi.kwarg, AV({(('p', fi.kwarg), ())}))
             for n, d in fi.defaults.items():
                 if isinstance(d, (ast.List, ast.Dict, ast.Set)):
-                    self.S.mutable_default = getattr(self.S, 'mutable_default', set()) | {n}
+                    self.S.mutable_default.add(n)
             body = fi.node.body
         self.block(body)
         if self.st is not None:
@@ -954,7 +967,7 @@ class Interp:
         S = self.S
         rets = self.returns
         for av, stC in rets:
-            S.ret_types |= {t for t in av.t}
+            S.ret_types |= {t for t in av.t if t != 'dictlit'}
             for (r, path) in av.o:
                 if r[0] == 'p':
                     S.ret.add(('o', r[1], path))
@@ -1090,6 +1103,7 @@ class Interp:
         self.ev(s.test)
         self._narrow_from_test(s.test, positive=True)
         self.facts_add(s.test)
+        self.st.cmp = self.st.cmp | self.cmp_facts(s.test, True)
         self.raise_exc('AssertionError', self.origin_id(), 'assert', (self.site(s),))
         if s.msg is not None:
             self.ev(s.msg)
@@ -1174,6 +1188,8 @@ class Interp:
             if av.o and av.why is None:
                 av = AV(av.o, av.t, self.site(node))
             self.st.nextcnt.pop(t.id, None)
+            if self.st.cmp:
+                self.st.cmp = frozenset(f for f in self.st.cmp if t.id not in (f[0], f[2]))
             self.setvar(t.id, av)
         elif isinstance(t, (ast.Tuple, ast.List)):
             lit_ok = isinstance(valnode, (ast.Tuple, ast.List)) and len(valnode.elts) == len(t.elts) \
@@ -1213,6 +1229,12 @@ class Interp:
                 return True
             if fn.endswith('os.path.splitext') or fn.endswith('os.path.split'):
                 return True
+            r = self.ix.resolve_expr_static(self.cur, valnode.func)
+            if r and r[0] == 'func' and not r[1].is_gen:
+                rets = [x for x in _own_nodes(r[1].node) if isinstance(x, ast.Return)]
+                if rets and all(isinstance(x.value, ast.Tuple) and len(x.value.elts) == n
+                                and not any(isinstance(y, ast.Starred) for y in x.value.elts) for x in rets):
+                    return True
         return False
 
     _evcache = None
@@ -1304,6 +1326,35 @@ class Interp:
             keep = {x for x in cur.t if not x.startswith(('cls:', 'sub:', 'extobj:'))}
             self.setvar(t.args[0].id, AV(cur.o, keep | tags, cur.why))
 
+    def cmp_facts(self, test, holds):
+        """comparison facts between names implied by `test` being `holds`"""
+        out = set()
+        if isinstance(test, ast.UnaryOp) and isinstance(test.op, ast.Not):
+            return self.cmp_facts(test.operand, not holds)
+        if isinstance(test, ast.BoolOp):
+            if (isinstance(test.op, ast.And) and holds) or (isinstance(test.op, ast.Or) and not holds):
+                for v in test.values:
+                    out |= self.cmp_facts(v, holds)
+            return out
+        if isinstance(test, ast.Compare):
+            items = [test.left] + list(test.comparators)
+            for (l, op, r) in zip(items, test.ops, items[1:]):
+                if not (isinstance(l, ast.Name) and isinstance(r, ast.Name)):
+                    continue
+                a, b = l.id, r.id
+                k = type(op).__name__
+                if not holds:
+                    k = {'Lt': 'GtE', 'LtE': 'Gt', 'Gt': 'LtE', 'GtE': 'Lt'}.get(k)
+                if k == 'Lt':
+                    out.add((a, '<', b))
+                elif k == 'LtE':
+                    out.add((a, '<=', b))
+                elif k == 'Gt':
+                    out.add((b, '<', a))
+                elif k == 'GtE':
+                    out.add((b, '<=', a))
+        return out
+
     def facts_add(self, test):
         conj = test.values if isinstance(test, ast.BoolOp) and isinstance(test.op, ast.And) else [test]
         for c in conj:
@@ -1322,6 +1373,7 @@ class Interp:
         self.facts.append(set(self.facts[-1]) if self.facts else set())
         self.facts_add(s.test)
         self._narrow_from_test(s.test, positive=True)
+        self.st.cmp = self.st.cmp | self.cmp_facts(s.test, True)
         seeded_before = self.st.seeded
         self.block(s.body)
         body_end = self.st
@@ -1330,6 +1382,7 @@ class Interp:
         self.st = pre
         self.guard_tests.append('not (' + ast.unparse(s.test) + ')')
         self._narrow_from_test(s.test, positive=False)
+        self.st.cmp = self.st.cmp | self.cmp_facts(s.test, False)
         self.block(s.orelse)
         self.guard_tests.pop()
         else_end = self.st
@@ -1389,6 +1442,9 @@ class Interp:
         self.in_loop += 1
         entry = self.st
         last = None
+        self.facts.append(set(self.facts[-1]) if self.facts else set())
+        if isinstance(s.target, ast.Name):
+            self.facts[-1].add((ast.dump(ast.Name(id=s.target.id, ctx=ast.Load())), ast.dump(s.iter)))
         for k in range(8):
             self.st = entry.copy()
             self.assign(s.target, elem, s, None)
@@ -1402,6 +1458,7 @@ class Interp:
                 break
             entry = new_entry
         self.in_loop -= 1
+        self.facts.pop()
         lp = self.loops.pop()
         self.st = entry            # zero or more iterations done, loop exhausted
         if s.orelse:
@@ -1659,7 +1716,9 @@ class Interp:
 
     def e_Dict(self, e):
         s = self.fresh(e, 'dict')
-        tags = {'dict', 'dictlit'}
+        tags = {'dict'}
+        if e.keys and all(isinstance(k, ast.Constant) for k in e.keys):
+            tags.add('dictlit')          # keys are visible: a lookup with another key is a KeyError
         for k, v in zip(e.keys, e.values):
             if k is not None:
                 self.ev(k)
@@ -1869,6 +1928,8 @@ class Interp:
                 return [('ext', 'super.' + attr, selfav)]
             b = self.ev(f.value)
             handled = False
+            if attr in ('parse_args', 'parse_known_args') and not ix.methods_by_name.get(attr):
+                return [('parse_args', b)]       # argparse entry: runs the registered actions / validators
             for t in sorted(b.t):
                 if t.startswith('mod:'):
                     d = t[4:]
@@ -2244,6 +2305,7 @@ class Interp:
         allargs = argvals + list(kwvals.values()) + star + kwstar
         w = (self.site(node),)
         self.A.lib_seen.add(name)
+        self.A.lib_sites.setdefault(name, w[0])
         meth = name[7:] if name.startswith('method:') else None
         # --- argparse registration
         if meth == 'add_argument':
@@ -2260,6 +2322,8 @@ class Interp:
         if _lib_in(name, L_NONDET):
             if name == 'tempfile.NamedTemporaryFile':
                 pass          # file *name* only matters if it reaches the output; tracked by the tempfile typestate
+            elif name.startswith('subprocess.') and self._cwd_pinned(node):
+                pass          # runs in the package directory: a function of the installed tree, not of the process
             else:
                 self.nondet(name, self.origin_id(), w)
         # --- printing / formatting an object with the default repr
@@ -2267,18 +2331,25 @@ class Interp:
             self.check_repr(allargs, node)
         # --- exceptions
         for exc in LIB['raises'].get(name, ()):
-            if name in ('builtins.max', 'builtins.min') and (len(argvals) != 1 or kwvals.get('default') is not None):
+            if meth in ('encode', 'decode') and self._codec_safe(node):
                 continue
             if name == 'builtins.next':
                 if len(argvals) + len(kwvals) > 1:
                     continue
                 if not self.next_may_stop(node, argvals):
                     continue
-            if name == 'method:remove' and recv is not None and 'set' in recv.t:
-                exc = 'KeyError'
             self.raise_exc(exc, self.origin_id(), '', w)
             if self.st is None:
                 return EMPTY
+        pre = LIB.get('raises_unless_lt', {}).get(name)
+        if pre is not None:
+            i, j, exc = pre
+            ok = False
+            if i < len(node.args) and j < len(node.args) and isinstance(node.args[i], ast.Name) and isinstance(node.args[j], ast.Name):
+                ok = (node.args[i].id, '<', node.args[j].id) in self.st.cmp
+            if not ok:
+                self.raise_exc(exc, self.origin_id(), '', (self.site(node, 'library precondition arg{} < arg{} not established before: {}'.format(
+                    i, j, self.ix.line(self.cur.rel, node.lineno)[:70])),))
         if name == 'random.sample' and argvals and ({'genexp', 'set'} & argvals[0].t):
             self.raise_exc('TypeError', self.origin_id(), '', (self.site(node, 'random.sample on a {} (TypeError on python >= 3.11): {}'.format(
                 '/'.join(sorted({'genexp', 'set'} & argvals[0].t)), self.ix.line(self.cur.rel, node.lineno)[:60])),))
@@ -2378,10 +2449,39 @@ class Interp:
             self.A.lib_default.add(name)
         return self.unknown_result(node, recv, allargs)
 
+    def _cwd_pinned(self, node):
+        """subprocess call with cwd=<expression derived from __file__>"""
+        for k in node.keywords:
+            if k.arg == 'cwd':
+                if '__file__' in ast.unparse(k.value):
+                    return True
+                if isinstance(k.value, ast.Name):
+                    for x in _own_nodes(self.cur.node):
+                        if isinstance(x, ast.Assign) and any(isinstance(t, ast.Name) and t.id == k.value.id for t in x.targets) \
+                                and '__file__' in ast.unparse(x.value) and x.lineno < node.lineno:
+                            return True
+        return False
+
+    def _codec_safe(self, node):
+        """x.encode(c, errors='replace'|'ignore') never raises; neither does decoding its result with the same codec"""
+        def lenient(c):
+            return isinstance(c, ast.Call) and isinstance(c.func, ast.Attribute) and c.func.attr == 'encode' and any(
+                k.arg == 'errors' and isinstance(k.value, ast.Constant) and k.value.value in ('replace', 'ignore',
+                                                                                             'xmlcharrefreplace', 'backslashreplace')
+                for k in c.keywords)
+        if lenient(node):
+            return True
+        f = node.func
+        if isinstance(f, ast.Attribute) and f.attr == 'decode' and lenient(f.value):
+            return ast.dump(f.value.args[0]) == ast.dump(node.args[0]) if (f.value.args and node.args) else False
+        return False
+
     def next_may_stop(self, node, argvals):
         """next(g): StopIteration only if the generator can finish after fewer yields than consumed so far"""
         a = node.args[0] if node.args else None
         gens = [t[4:] for t in (argvals[0].t if argvals else ()) if t.startswith('gen:')]
+        if argvals and 'genexp' in argvals[0].t and not gens:
+            return False        # NARROWED (value hazards): emptiness of a generator expression
         if not gens or not isinstance(a, ast.Name):
             return True
         k = self.st.nextcnt.get(a.id, 0) + 1
@@ -2632,11 +2732,13 @@ class Analyzer:
         self.ctx_validators = None
         self.lambdas = {}
         self.lib_seen = set()
+        self.lib_sites = {}
         self.lib_default = set()
         self.unknown_calls = {}
         self.global_taint = {}
         self.global_readers = {}
         self._my = {}
+        self._fat = {}
         self._ctx_cache = {}
         self.rounds = 0
         self.callers = {}
@@ -2673,7 +2775,7 @@ class Analyzer:
                     if r and r[0] == 'func' and isinstance(v, (ast.Dict, ast.List, ast.Tuple)):
                         tags.add('func:' + r[1].fid)
             if isinstance(v, ast.Dict):
-                tags |= {'dict', 'dictlit'}
+                tags |= {'dict'}
             elif isinstance(v, ast.Call):
                 r = self.ix.resolve_expr_static(mi.init_fi, v.func)
                 if r and r[0] == 'class':
@@ -2767,6 +2869,12 @@ class Analyzer:
         return acts, vals
 
     def func_at(self, rel, line):
+        key = (rel, line)
+        if key not in self._fat:
+            self._fat[key] = self._func_at(rel, line)
+        return self._fat[key]
+
+    def _func_at(self, rel, line):
         best = None
         for fi in self.ix.funcs.values():
             if fi.rel == rel and not fi.is_module:
@@ -2842,13 +2950,14 @@ def _short(fi):
     return fi.qual if fi.qual != 'cli' and fi.qual != 'main' else os.path.basename(fi.rel)[:-3] + '.' + fi.qual
 
 
-def _waived(fi, kind, what, A):
-    src = ast.get_source_segment(fi.mod.src, fi.node) or '' if not fi.is_module else fi.mod.src
+def _waived(fi, kind, what, A, origin=None):
+    holder = A.ix.funcs.get(origin) if origin else fi
+    if holder is None:
+        return None
+    src = holder.mod.src if holder.is_module else (ast.get_source_segment(holder.mod.src, holder.node) or '')
     for (fpat, k, wpat, anchor, reason) in EC.WAIVERS:
-        if k == kind and fnmatch.fnmatchcase(fi.fid, fpat) and fnmatch.fnmatchcase(what, wpat):
-            # the anchor may live in the function that holds the offending statement
-            if anchor in src or any(anchor in m.src for m in A.ix.mods.values() if anchor and anchor in m.src):
-                return reason
+        if k == kind and fnmatch.fnmatchcase(fi.fid, fpat) and fnmatch.fnmatchcase(what, wpat) and anchor in src:
+            return reason
     return None
 
 
@@ -2888,13 +2997,15 @@ def check_contract(A, c):
             S = A.summ[fi.fid]
         name = _short(fi)
 
-        def fail(kindname, what, text, witness):
-            reason = _waived(fi, kindname, what, A)
+        def fail(kindname, what, text, witness, origin=None):
+            reason = _waived(fi, kindname, what, A, origin)
             if reason:
                 ob.assumed.append('WAIVED {}: {}'.format(what, reason))
                 return
             ob.verdict = 'failed'
-            ob.failures.append(('effect:{}:{}:{}'.format(kindname, name, what), text, list(witness)))
+            key = 'effect:{}:{}:{}'.format(kindname, name, what)
+            if not any(f[0] == key for f in ob.failures):
+                ob.failures.append((key, text, list(witness)))
 
         if kind in ('frame', 'frame-only'):
             ps = c.get('params', '*')
@@ -2915,7 +3026,7 @@ def check_contract(A, c):
                     continue
                 loc = 'the argument object itself' if not path else 'the object ' + pshow(p, path)
                 extra = ''
-                if p in getattr(S, 'mutable_default', ()):
+                if p in S.mutable_default:
                     extra = ' (and `{}` has a mutable default value shared between calls)'.format(p)
                 fail('frame', p, '{} may mutate its argument `{}`: {}{}'.format(fi.qual, p, loc, extra), w)
         elif kind == 'rng-guard':
@@ -2964,20 +3075,48 @@ def check_contract(A, c):
         elif kind in ('raises-only', 'escape-main'):
             allowed = c['allowed']
             nassert = 0
+            if getattr(A, '_raise_contracts', None) is None:
+                A._raise_contracts = {}
+                A._strict_assert_funcs = set()
+                for c2 in EC.EFFECT_CONTRACTS:
+                    if c2.get('strict_asserts'):
+                        A._strict_assert_funcs |= {f2.fid for f2 in select_functions(A, c2['select'])}
+                for c2 in EC.EFFECT_CONTRACTS:
+                    if c2['kind'] in ('raises-only', 'escape-main') and c2['prop'] == c['prop']:
+                        for f2 in select_functions(A, c2['select']):
+                            A._raise_contracts.setdefault(f2.fid, []).append(c2['allowed'])
             for (exc, origin, tag), w in sorted(S.raises.items()):
                 if any(exc_is_sub(exc, a) for a in allowed):
                     continue
                 oq = origin.split(':')[-1]
-                if tag == 'assert':
-                    nassert += 1
+                # modular reasoning: an exception that violates the raises-contract of a contracted callee on the
+                # witness chain is that callee's failure; this function assumes the callee's contract
+                charged = None
+                for line in w:
+                    try:
+                        rel, ln = line.split(':')[0], int(line.split(':')[1])
+                    except (ValueError, IndexError):
+                        continue
+                    g = A.func_at(rel, ln)
+                    if g is None or g.fid == fi.fid or g.fid not in A._raise_contracts:
+                        continue
+                    if line is w[-1] or True:
+                        if any(not any(exc_is_sub(exc, a) for a in al) for al in A._raise_contracts[g.fid]):
+                            charged = g
+                if charged is not None and (tag not in ('assert', 'typeguard', 'abstract') or
+                                            (tag == 'assert' and getattr(A, '_strict_assert_funcs', None) and charged.fid in A._strict_assert_funcs)):
+                    ob.assumed.append('{} raised in {}: charged to the raises-contract of {}'.format(exc, oq, charged.qual))
                     continue
+                if tag == 'assert' and not (c.get('strict_asserts') and origin in {f.fid for f in funcs}):
+                    nassert += 1        # internal consistency assert (NARROWED: assert); strict only for the
+                    continue            # input-validating asserts written in the contracted functions themselves
                 if tag == 'typeguard':
                     ob.assumed.append('type-guard TypeError in {} (NARROWED: type guards)'.format(oq))
                     continue
                 if tag == 'abstract':
                     ob.assumed.append('abstract method {} (NARROWED: abstract methods)'.format(oq))
                     continue
-                fail('raises', '{}@{}'.format(exc, oq), '{} may leave {} (raised in {})'.format(exc, name, oq), w)
+                fail('raises', '{}@{}'.format(exc, oq), '{} may leave {} (raised in {})'.format(exc, name, oq), w, origin)
             if nassert:
                 ob.assumed.append('{} reachable assert statement(s) assumed to hold (NARROWED: assert)'.format(nassert))
         elif kind == 'tempfile':
